@@ -132,6 +132,11 @@ mut("C12", "to-aligned-drops-third-chunk", "datacake-rpc/src/utils.rs", "    whi
 # --- C14
 mut("C14", "F9-reverted-timeout-only-on-send", RCL, "            Some(duration) => tokio::time::timeout(duration, exchange)\n                .await\n                .map_err(|_| Status::timeout())?,", "            Some(_duration) => exchange.await,")
 mut("C14", "server-runs-handler-twice", NSV, "    handler\n        .try_handle(remote_addr, headers, Body::new(body))\n        .await", "    let bytes = hyper::body::to_bytes(body).await.map_err(Status::internal)?;\n    let _ = handler.try_handle(remote_addr, headers.clone(), Body::from(bytes.clone())).await;\n    handler\n        .try_handle(remote_addr, headers, Body::from(bytes))\n        .await")
+# --- size thresholds (round 11)
+SQDB = "datacake-sqlite/src/db.rs"
+mut("C17", "sqlite-bulk-capped-at-1000-rows", SQDB, "                for params in param_set {\n                    total += prepared.execute(params)?;", "                for params in param_set.into_iter().take(1000) {\n                    total += prepared.execute(params)?;")
+mut("C17", "sqlite-multi-get-capped-at-1000", SQDB, "            for params in param_sets {\n                if let Some(row)", "            for params in param_sets.into_iter().take(1000) {\n                if let Some(row)")
+mut("C08", "purge-stops-after-1024", CR, "            } else {\n                deleted_keys.push((k, stamp));\n            }\n        }\n\n        deleted_keys", "            } else if deleted_keys.len() < 1024 {\n                deleted_keys.push((k, stamp));\n            }\n        }\n\n        deleted_keys")
 # --- C17
 mut("C17", "sqlite-tombstone-keeps-data", SQ, "ON CONFLICT (keyspace, doc_id) DO UPDATE SET ts = excluded.ts, data = NULL;", "ON CONFLICT (keyspace, doc_id) DO UPDATE SET ts = excluded.ts;")
 mut("C17", "sqlite-F7b-reverted", SQ, "            .map(|id| (keyspace.to_string(), id as i64))\n            .collect::<Vec<_>>();\n        let docs = self", "            .map(|id| (keyspace.to_string(), id))\n            .collect::<Vec<_>>();\n        let docs = self")
